@@ -382,6 +382,21 @@ func byteCompare(r *core.Run, cond ssa.Value, truth bool) (a, b ssa.Value, equal
 	if okx && oky {
 		return cx.X, cy.X, eq, true
 	}
+	// s == string(b): one side already is a string
+	isBytes := func(v ssa.Value) bool {
+		sl, ok := v.Type().Underlying().(*types.Slice)
+		if !ok {
+			return false
+		}
+		bt, ok := sl.Elem().Underlying().(*types.Basic)
+		return ok && bt.Kind() == types.Uint8
+	}
+	if okx && isBytes(cx.X) {
+		return cx.X, cd.Y, eq, true
+	}
+	if oky && isBytes(cy.X) {
+		return cd.X, cy.X, eq, true
+	}
 	return nil, nil, false, false
 }
 
